@@ -72,7 +72,9 @@ def parse_result_file(path, res):
         if lm and status in ('SUCCESS', 'FAILURE'):
             res.labelled[lm.group(1)] = res.labelled.get(lm.group(1), 0) + 1
         if '.cover.' in name or status in ('SATISFIED', 'UNSATISFIABLE'):
-            res.covers[desc] = status
+            # the same witness text may occur at several program points: satisfied if any of them is
+            if res.covers.get(desc) != 'SATISFIED':
+                res.covers[desc] = status
             continue
         if status == 'FAILURE':
             if 'unwinding assertion' in desc:
